@@ -365,8 +365,15 @@ class Entropy:
         self.extra = 0
         self.fail_after = None      # number of requests served before the function raises (None: never)
         self.served = 0
+        self.hook = None            # called once, inside the next request (a re-entrant entropy source: other sessions run here)
 
     def __call__(self, n):
+        if self.hook is not None:
+            h, self.hook = self.hook, None
+            saved, failed = list(_entlog()), getattr(_tls, "entfail", False)
+            h()                      # events of other sessions are recorded here, before this call returns
+            _entlog()[:] = saved
+            _tls.entfail = failed
         if self.fail_after is not None and self.served >= self.fail_after:
             _entlog().append({"req": n, "got": ""})
             _tls.entfail = True
@@ -419,6 +426,39 @@ class Trace:
         self.events = []
         self.objs = {}
         self.n = 0
+        self.sent = {}        # instance -> element bytes it sent (from the value start() RETURNED; inherited on restore)
+        self.blob_src = {}    # serialized state (as parsed JSON) -> instance that produced it
+        self.unpeeked = []    # restored instances whose outbound_message attribute has not been read yet
+
+    # The tracer must not disturb what it observes: reading `outbound_message` of a restored instance right after
+    # from_serialized() would hide a lazily (re)computed attribute.  Every second restored instance is therefore left
+    # untouched until its finish() has returned (or the trace ends); only then is the attribute read (`peek` event).
+    # Drivers that need "the message this instance sent" (to reflect it) take it from what start() returned.
+    def own(self, inst):
+        return self.sent.get(inst, b"")
+
+    @staticmethod
+    def _blobkey(data):
+        try:
+            f = json.loads(data.decode("ascii"))
+            return tuple(sorted((str(k), str(v)) for k, v in f.items()))
+        except Exception:
+            return None
+
+    def _inherit(self, inst, data):
+        src = self.blob_src.get(self._blobkey(data))
+        if src is not None and src in self.sent:
+            self.sent[inst] = self.sent[src]
+
+    def _peek(self, inst):
+        if inst in self.unpeeked:
+            self.unpeeked.remove(inst)
+            try:
+                out = {"t": "val", "v": hx(self.objs[inst].outbound_message)}
+            except Exception as e:
+                out = {"t": "err", "v": exc_name(e)}
+            del _entlog()[:]
+            self._ev({"op": "peek", "inst": inst, "out": out})
 
     def _ev(self, ev):
         ev["ent"] = list(_entlog())
@@ -492,6 +532,7 @@ class Trace:
         try:
             m = o.start()
             out = {"t": "msg", "v": hx(m)}
+            self.sent[inst] = bytes(m[1:])
         except Exception as e:
             m, out = None, {"t": "err", "v": exc_name(e)}
         self._ev({"op": "start", "inst": inst, "out": out})
@@ -505,6 +546,7 @@ class Trace:
         except Exception as e:
             k, out = None, {"t": "err", "v": exc_name(e)}
         self._ev({"op": "finish", "inst": inst, "arg": hx(msg), "out": out})
+        self._peek(inst)
         return k
 
     def serialize(self, inst):
@@ -516,6 +558,7 @@ class Trace:
                 out = {"t": "blob", "raw": hx(raw), "fields": {"_not_an_object_of_strings": ""}}
             else:
                 out = {"t": "blob", "raw": hx(raw), "fields": fields}
+                self.blob_src.setdefault(self._blobkey(raw), inst)
         except Exception as e:
             raw, out = None, {"t": "err", "v": exc_name(e)}
         self._ev({"op": "serialize", "inst": inst, "out": out})
@@ -532,7 +575,12 @@ class Trace:
         try:
             o = self._from_serialized(cls, data, self.uni.params[ps])
             self.objs[inst] = o
-            out = {"t": "inst", "outbound": hx(o.outbound_message)}
+            self._inherit(inst, data)
+            if (zlib.crc32(self.name.encode()) + self.n) % 2:
+                out = {"t": "inst"}
+                self.unpeeked.append(inst)
+            else:
+                out = {"t": "inst", "outbound": hx(o.outbound_message)}
         except Exception as e:
             inst_ok, out = None, {"t": "err", "v": exc_name(e)}
         self._ev({"op": "restore", "inst": inst, "cls": cls, "ps": ps, "blob": fields, "out": out})
@@ -553,7 +601,12 @@ class Trace:
         try:
             o = self._from_serialized(cls, data, self.uni.params[ps])
             self.objs[inst] = o
-            out = {"t": "inst", "outbound": hx(getattr(o, "outbound_message", b""))}
+            self._inherit(inst, data)
+            if (zlib.crc32(self.name.encode()) + self.n) % 2:
+                out = {"t": "inst"}
+                self.unpeeked.append(inst)
+            else:
+                out = {"t": "inst", "outbound": hx(getattr(o, "outbound_message", b""))}
         except Exception as e:
             out = {"t": "err", "v": exc_name(e)}
         ev = {"op": "restore", "inst": inst, "cls": cls, "ps": ps, "blob": fields, "out": out, "raw": hx(data[:200])}
@@ -579,6 +632,8 @@ class Trace:
         self.events.append(ev)
 
     def to_json(self):
+        for inst in list(self.unpeeked):
+            self._peek(inst)
         return {"name": self.name, "events": self.events}
 
 
